@@ -49,7 +49,42 @@ func vfC07GenCfg(rt *rapid.T) *vfxCfg {
 	// oversized backend body into a success
 	c.CacheSize = rapid.SampledFrom([]uint32{0, 2, 2, 1000, 1000}).Draw(rt, "route-cacheSize")
 	c.Compression = rapid.SampledFrom([]int{-1, -1, -1, 0, 10}).Draw(rt, "compression-minLength")
+	// a memoryCache must never hand out a response the current limits would withhold
+	if rapid.Bool().Draw(rt, "memoryCache") {
+		c.MemCache = &vfxMemCache{Expiration: "1h",
+			MaxEntryBytes: rapid.SampledFrom([]int{2000, 1 << 20, 1 << 20}).Draw(rt, "maxEntryBytes"),
+			Codes:         rapid.SampledFrom([][]int{{200, 203, 404, 503}, {200, 203, 404, 503}, {200}}).Draw(rt, "cache-codes"),
+			Methods:       []string{"GET"}}
+		// pools that take their limit from the proxy level are the interesting ones across updates
+		for i := range c.Pools {
+			if rapid.Bool().Draw(rt, "memoryCache-pool-inherits-limit") {
+				c.Pools[i].ServerMax = 0
+			}
+		}
+	}
 	return c
+}
+
+// vfC07UpdatedCfg draws the next generation of the pipeline: changed serverMaxBodySize at proxy
+// level (pool specs untouched) or at the level of the pool the case uses.
+func vfC07UpdatedCfg(rt *rapid.T, c *vfxCfg, pool string, size int) (*vfxCfg, string) {
+	n := *c
+	n.Pools = append([]vfxPoolCfg(nil), c.Pools...)
+	lim := rapid.SampledFrom([]int64{1, 17, 1024, 65536, -1, 0, int64(size) - 1, int64(size) - 1, int64(size) - 1, int64(size)}).Draw(rt, "updated-limit")
+	if lim < -1 {
+		lim = 1
+	}
+	what := rapid.SampledFrom([]string{"proxy", "proxy", "proxy", "pool"}).Draw(rt, "updated-level")
+	if what == "proxy" {
+		n.ProxyServerMax = lim
+	} else {
+		for i := range n.Pools {
+			if n.Pools[i].FilterValue == pool {
+				n.Pools[i].ServerMax = lim
+			}
+		}
+	}
+	return &n, what
 }
 
 // vfC07GenSize draws a size around the effective limit.
@@ -91,6 +126,7 @@ type vfC07Case struct {
 	Chunks   []int
 	Split    int
 	Status   int
+	UpdateAt int    // >= 1: the pipeline is hot-updated (new limits) before this repetition; 0 = no update
 	AcceptEn string // client Accept-Encoding ("" = none)
 	Reps     int    // the same request (same route-cache key) is sent this many times
 }
@@ -119,6 +155,16 @@ func vfC07GenCase(rt *rapid.T, c *vfxCfg, thorough bool) (k vfC07Case, eff int64
 	}
 	k.Size = vfC07GenSize(rt, eff, k.Dir, thorough)
 	k.Reps = rapid.SampledFrom([]int{1, 2, 2, 3}).Draw(rt, "repetitions")
+	updOdds := 9
+	if c.MemCache != nil && k.Dir == "resp" {
+		updOdds = 1
+	}
+	if rapid.IntRange(0, updOdds).Draw(rt, "hot-update") == 0 {
+		if k.Reps < 2 {
+			k.Reps = 2
+		}
+		k.UpdateAt = rapid.IntRange(1, k.Reps-1).Draw(rt, "update-before-repetition")
+	}
 	if k.Size > 1<<20 && k.Reps > 2 {
 		k.Reps = 2 // multi-megabyte bodies: at most one repetition
 	}
@@ -152,9 +198,9 @@ func TestVerifC07Limits(t *testing.T) {
 		for i := 0; i < nreq; i++ {
 			k, eff, inherited := vfC07GenCase(rt, cfg, thorough)
 			body := vfxBody(k.Seed, k.Size, int(k.Seed)&1)
-			// same host + method + path = same route-cache key for every request of the case that
-			// goes to this path with this method (the query is not part of the key)
-			q := &vfxRequest{Method: k.Method, Target: fmt.Sprintf("/p%d/x?i=%d", k.PathIdx, i), Host: "c07.vf.test", Framing: "none"}
+			// the repetitions of a case share host + method + path, i.e. the key of the route cache
+			// and of the memoryCache; different cases get different paths
+			q := &vfxRequest{Method: k.Method, Target: fmt.Sprintf("/p%d/c%d?i=%d", k.PathIdx, i, i), Host: "c07.vf.test", Framing: "none"}
 			if k.Pool != "" {
 				q.Headers = append(q.Headers, [2]string{"X-Vf-Pool", k.Pool})
 			}
@@ -171,6 +217,27 @@ func TestVerifC07Limits(t *testing.T) {
 				sc.Body, sc.Framing, sc.Split, sc.LieExtra = body, k.Encoding, k.Split, k.LieExtra
 			}
 			for rep := 0; rep < k.Reps; rep++ {
+				if k.UpdateAt > 0 && rep == k.UpdateAt {
+					ncfg, what := vfC07UpdatedCfg(rt, cfg, k.Pool, k.Size)
+					if err := rig.update(ncfg); err != nil {
+						rt.Fatalf("VF-INCONCLUSIVE hot update rejected: %v", err)
+					}
+					cfg = ncfg
+					vf.Class("hot-update:" + what)
+					if k.Dir == "resp" {
+						var poolMax int64
+						for _, p := range cfg.Pools {
+							if p.FilterValue == k.Pool {
+								poolMax = p.ServerMax
+							}
+						}
+						old := eff
+						eff, inherited = vfC07Eff(poolMax, cfg.ProxyServerMax)
+						if cfg.MemCache != nil && old >= 0 && int64(k.Size) <= old && eff >= 0 && int64(k.Size) > eff {
+							vf.Class("hot-update:limit-lowered-below-cached-response")
+						}
+					}
+				}
 				if !vfC07Judge(rt, vf, rig, cfg, k, eff, inherited, rep, q, sc, body) {
 					rig.dropConn()
 				}
@@ -218,6 +285,8 @@ func vfC07Judge(rt *rapid.T, vf *vfCollector, rig *vfxRig, cfg *vfxCfg, k vfC07C
 		k.Dir + "-over": over, k.Dir + "-stream": eff < 0, k.Dir + "-inner-overrides-outer": !inherited && ((k.Dir == "req" && cfg.ServerClientMax != 0) || (k.Dir == "resp" && cfg.ProxyServerMax != 0)),
 		"candidate-pool": k.Pool != "", "size>4MiB": k.Size > vfC07Default, "repeated-route-key": rep > 0, "repeated-route-key-cache-on": rep > 0 && cfg.CacheSize > 0,
 		"repeated-over-limit-request-cache-on": rep > 0 && cfg.CacheSize > 0 && k.Dir == "req" && over, "repeated-stream-request-cache-on": rep > 0 && cfg.CacheSize > 0 && k.Dir == "req" && eff < 0,
+		"memoryCache": cfg.MemCache != nil, "after-hot-update": k.UpdateAt > 0 && rep >= k.UpdateAt, "resp-memoryCache-repeated": cfg.MemCache != nil && k.Dir == "resp" && rep > 0,
+		"resp-memoryCache-hit(backend-not-contacted)": cfg.MemCache != nil && k.Dir == "resp" && rep > 0 && len(seen) == 0,
 		"resp-compressed": compressed, "resp-compressed-lying": compressed && k.Encoding == "lying", "resp-compressed-over": compressed && over} {
 		if on {
 			vf.Class(n)
